@@ -311,6 +311,15 @@ func c10(args []string) {
 			return rec
 		}
 		A := append(append([]proto.Message{fileIdMesg(r)}, setup...), mkRec())
+		failFirst := r.chance(1, 3) // the first sequence is rejected after its developer data was declared: nothing of it may survive
+		if failFirst {
+			bad := proto.Message{Num: 0xFF00}
+			bf := factory.CreateField(0xFF00, 9)
+			bf.BaseType, bf.Type, bf.Array = basetype.Byte, profile.Byte, true
+			bf.Value = proto.SliceUint8(make([]byte, 256))
+			bad.Fields = append(bad.Fields, bf)
+			A = append(A, bad)
+		}
 		ownSetup := r.chance(1, 3)
 		B := []proto.Message{fileIdMesg(r)}
 		if ownSetup {
@@ -318,6 +327,9 @@ func c10(args []string) {
 		}
 		B = append(B, mkRec())
 		for _, stream := range []bool{false, true} {
+			if stream && failFirst { // a failed WriteMessage leaves the stream encoder inside the same sequence
+				continue
+			}
 			w, _ := newDest(3, -1, 0, nil)
 			var errA, errB error
 			if !stream {
@@ -342,8 +354,8 @@ func c10(args []string) {
 				errB = write(B)
 			}
 			stat("oracle_sequence_scoping", 1)
-			if errA != nil || (errB == nil) != ownSetup {
-				emitJSON("FAIL", "", map[string]any{"kind": "developer-data-scope", "stream": stream, "second_sequence_has_own_descriptions": ownSetup,
+			if (errA != nil) != failFirst || (errB == nil) != ownSetup {
+				emitJSON("FAIL", "", map[string]any{"kind": "developer-data-scope", "stream": stream, "second_sequence_has_own_descriptions": ownSetup, "first_sequence_rejected_on_purpose": failFirst,
 					"first_err": fmt.Sprint(errA), "second_err": fmt.Sprint(errB), "first": coqIMesgs(A), "second": coqIMesgs(B)})
 			}
 		}
@@ -440,7 +452,9 @@ func onlyFloat64DevDiffer(a, b *proto.Message) bool {
 func boundaryMessages() [][]proto.Message {
 	loadFactory()
 	var out [][]proto.Message
-	mk := func(num typedef.MesgNum, f proto.Field) { out = append(out, []proto.Message{{Num: num, Fields: []proto.Field{f}}}) }
+	mk := func(num typedef.MesgNum, f proto.Field) {
+		out = append(out, []proto.Message{{Num: num, Fields: []proto.Field{f}}})
+	}
 	rep := func(ch byte, n int) string { return string(bytes.Repeat([]byte{ch}, n)) }
 	for _, n := range []int{252, 253, 254, 255, 256, 257} {
 		f := factory.CreateField(mesgnum.FileId, fieldnum.FileIdProductName)
